@@ -42,7 +42,7 @@ class _Cont(Exception):
 
 class Obligation:
     __slots__ = ("name", "kind", "pc", "goal", "text", "line", "status", "detail", "time", "backend", "model",
-                 "zmodel", "ghost", "decisions")
+                 "zmodel", "ghost", "decisions", "regions")
 
     def __init__(self, name, kind, pc, goal, text="", line=0):
         self.name = name
@@ -57,6 +57,7 @@ class Obligation:
         self.backend = ""
         self.model = None
         self.zmodel = None
+        self.regions = {}
         self.ghost = None
         self.decisions = None
 
@@ -107,6 +108,7 @@ class Engine:
         self.raises_decl = {}
         self.assumed = set()
         self.dec_labels = []
+        self.finding_terms = {}
 
     # deterministic fresh names per path position so re-execution of a prefix yields identical terms
     def fresh(self, name, sort):
@@ -145,9 +147,12 @@ class Engine:
         name = "%s/%s#%s" % (self.ob_prefix, kind, text[:90] if text else n)
         ob = Obligation(name, kind, self.pc, goal, text, self.cur_line)
         ob.ghost = dict(self.ghost)
+        ob.regions = getattr(self, "finding_terms", None) or {}
         ob.decisions = list(self.dec_labels)
         self.obligs.append(ob)
         if assume_after:
+            if z3.is_false(z3.simplify(goal)):
+                raise PathEnd()       # the continuation would be vacuous
             self.assume(goal)
 
     # ------------------------------------------------------------ decisions
@@ -234,6 +239,10 @@ class Engine:
             self.note_write(("f", attr, i), ref.t)
 
     def coerce(self, ty, val):
+        # a None-able value stored into a slot declared non-None: Python would store None and fail at the
+        # first arithmetic use; the obligation is raised at the store (conservative, earlier)
+        if isinstance(val, OptV) and ty.kind not in ("opt",) :
+            return self.unopt(val, "value stored in non-optional field")
         return val
 
     # lists ---------------------------------------------------------------
